@@ -90,9 +90,26 @@ def gen_cases(rng, n, tbl):
             return base + rng.choice([0, 1, 43200, 86399, rng.randint(0, 86399)]) + rng.choice([0, -86400, 86400]) * rng.randint(0, 1)
         return rng.randint(T_MIN + 86400 * 400, T_MAX - 86400 * 400)
 
+    def local_midnight_near(ts):
+        lt = time.localtime(ts)
+        return ts - (lt.tm_hour * 3600 + lt.tm_min * 60 + lt.tm_sec)
+
+    pending = []
     for _ in range(n):
+        if pending:
+            cases.append(pending.pop())
+            continue
         r = rng.random()
         ts = pick_ts()
+        if rng.random() < 0.12:
+            # the same call evaluated shortly before and shortly after a local midnight (same expression object)
+            m = local_midnight_near(ts)
+            ts = m - rng.choice([60, 600, 1200, 3000])
+            fn = rng.choice(['BOD', 'BOW', 'BOM', 'BOY'])
+            a = [rng.choice([0, 0, 1, -1])] + ([rng.randint(0, 6)] if fn == 'BOW' else [])
+            cases.append((fn, [ts] + a))
+            pending.append((fn, [m + rng.choice([0, 60, 600, 1800])] + a))
+            continue
         if r < 0.15:
             cases.append(('fields', [ts]))
         elif r < 0.27:
@@ -144,8 +161,13 @@ async def eval_impl(cases):
     from qtoggleserver.core.expressions import EvalContext, ROLE_VALUE
     from qtoggleserver.core.expressions.exceptions import InvalidArgumentValue
 
+    parsed = {}
+
     async def ev(text, ts):
-        e = expressions.parse(None, text, ROLE_VALUE)
+        # one expression object per text, evaluated many times at different instants, like a port's expression
+        e = parsed.get(text)
+        if e is None:
+            e = parsed[text] = expressions.parse(None, text, ROLE_VALUE)
         return await e.eval(EvalContext({}, ts * 1000 + 123))
 
     out = []
